@@ -9,9 +9,9 @@ from typing import List, Optional
 
 def snapshot_source(src: str, detectors: Optional[List[str]] = None, repeat: int = 1) -> dict:
     from vf import adapter
-    from vf.adapter import DETECTOR_NAMES
+    from vf.adapter import DETECTOR_NAMES, OPT_DETECTOR_NAMES
 
-    names = detectors if detectors is not None else list(DETECTOR_NAMES)
+    names = detectors if detectors is not None else list(DETECTOR_NAMES) + list(OPT_DETECTOR_NAMES)
     tl = adapter.init_single(src, "c")
     teal, fn = adapter.single_function(tl)
     before = adapter.function_contexts(fn, deep=True)
@@ -25,6 +25,10 @@ def snapshot_source(src: str, detectors: Optional[List[str]] = None, repeat: int
                 results = tl.run_detectors()
             adapter.clear_caches()
         for det, r in zip(tl.detectors, results):
+            if det.NAME in OPT_DETECTOR_NAMES:
+                # no output object at all when the contract has no finding
+                res[det.NAME] = {"paths": [], "json": json.dumps([o.to_json() for o in r], sort_keys=False)}
+                continue
             out = r[0]
             res[det.NAME] = {
                 "paths": [[b.entry_instr.line for b in p] for p in out.paths],
